@@ -11,7 +11,7 @@ from vlib.runner import Check, Outcome
 import py7zr
 from py7zr.exceptions import UnsupportedCompressionMethodError
 
-APIS = ["writestr-bytes", "writestr-bytes", "writestr-str", "writestr-bytearray", "writestr-memoryview", "writef-bytesio", "writef-file"]
+APIS = ["writestr-bytes", "writestr-bytes", "writestr-str", "writestr-bytearray", "writestr-memoryview", "writef-bytesio", "writef-file", "writef-buffered"]
 TARGETS = ["path", "pathlib", "bytesio", "file", "multivolume"]
 BLOCKS = [None, None, 32768, 4096, 64, 17]
 CHUNKS = [None, None, 65536, 4097, 100, 7, 1]
